@@ -66,9 +66,20 @@ func (fc *FnCtx) newEnv(st *State) *Env {
 func (fc *FnCtx) entryEnv() *Env {
 	e := fc.newEnv(fc.entry)
 	e.atBlk = fc.fn.Blocks[0]
-	e.callee = true // only params
+	e.callee = true // only params (and, for closures, captured variables at entry)
 	for n, v := range fc.params {
 		e.binds[n] = binding{v, fc.paramT[n]}
+	}
+	if fc.fn != nil {
+		for _, fv := range fc.fn.FreeVars {
+			p, ok := fc.vals[fv]
+			pt, isPtr := fv.Type().Underlying().(*types.Pointer)
+			if ok && isPtr && p.K == KPtr {
+				if _, clash := e.binds[fv.Name()]; !clash {
+					e.binds[fv.Name()] = binding{fc.load(fc.entry, pt.Elem(), p.Obj(), p.Off()), pt.Elem()}
+				}
+			}
+		}
 	}
 	return e
 }
@@ -960,6 +971,22 @@ func (e *Env) evalCall(x *ast.CallExpr) sval {
 				specPanic("fresh of non-reference")
 			}
 			return sval{v: Leaf(Ge(obj, e.old.next)), t: boolT}
+		case "newerThan":
+			// newerThan(a, b): the object a refers to was allocated after the one b refers to
+			objOf := func(v sval) Term {
+				switch v.v.K {
+				case KPtr, KSlice:
+					return v.v.Obj()
+				case KLeaf:
+					if v.v.T.Sort == SInt {
+						return v.v.T
+					}
+				}
+				specPanic("newerThan of non-reference")
+				return Term{}
+			}
+			a, b := e.eval(x.Args[0]), e.eval(x.Args[1])
+			return sval{v: Leaf(Gt(objOf(a), objOf(b))), t: boolT}
 		case "min", "max":
 			a := e.coerce(e.eval(x.Args[0]), intT)
 			b := e.coerce(e.eval(x.Args[1]), a.t)
